@@ -118,11 +118,12 @@ func HarnessPanicHTTP() {
 }
 
 type C struct {
-	Boom    func(a int) (int, error)
-	Fine    func(a int) (int, error)
-	Slow    func(ctx context.Context, a int) (int, error)
-	Sub     func(ctx context.Context) (<-chan int, error)
-	BoomSub func(ctx context.Context) (<-chan int, error)
+	Boom     func(a int) (int, error)
+	Fine     func(a int) (int, error)
+	Slow     func(ctx context.Context, a int) (int, error)
+	Sub      func(ctx context.Context) (<-chan int, error)
+	BoomSub  func(ctx context.Context) (<-chan int, error)
+	BoomLate func(ctx context.Context) (int, error)
 }
 
 type WH struct {
@@ -131,6 +132,12 @@ type WH struct {
 }
 
 func (h *WH) Slow(ctx context.Context, a int) (int, error) { <-h.release; return a, nil }
+
+// BoomLate panics in its clean-up path, i.e. after its caller cancelled the call.
+func (h *WH) BoomLate(ctx context.Context) (int, error) {
+	<-ctx.Done()
+	panic("late:" + h.msg)
+}
 
 // BoomSub is a channel-returning method that panics before returning its channel.
 func (h *WH) BoomSub(ctx context.Context) (<-chan int, error) { panic("sub:" + h.msg) }
@@ -189,6 +196,18 @@ func HarnessPanicWS() {
 		if berr != nil {
 			verif.Assert(strings.Contains(berr.Error(), "panic"), "error-mentions-panic")
 		}
+	}
+	if verif.Bool("panic_after_cancel") {
+		// the handler panics only once its caller has cancelled: the call is still answered
+		lctx, lcancel := context.WithCancel(context.Background())
+		lret := 0
+		var lerr error
+		go func() { _, lerr = c.BoomLate(lctx); lret++ }()
+		verif.Quiesce()
+		lcancel()
+		verif.Quiesce()
+		verif.Assert(lret == 1 && lerr != nil, "cancelled-then-panicking-call-gets-error")
+		verif.Assert(!verif.Crashed(), "process-survives")
 	}
 	_, perr := c.Boom(x)
 	verif.Assert(perr != nil, "panicking-call-gets-error")
